@@ -334,6 +334,15 @@ fn gen_impl_delegation_trait_defs(
                         }
                         lifetime.take()
                     }
+                    // the typed `self: &'a Self`
+                    Some(syn::FnArg::Receiver(syn::Receiver {
+                        reference: None,
+                        ty,
+                        ..
+                    })) => match ty.as_mut() {
+                        syn::Type::Reference(reference) => reference.lifetime.take(),
+                        _ => None,
+                    },
                     _ => None,
                 };
                 let impl_lifetime = match receiver_lifetime {
